@@ -158,6 +158,7 @@ func runParent(def *CheckDef, tier string, seed int64, scratch string, nw int) i
 		crashes  []Violation
 		timedOut bool
 		broken   string
+		notes    []string
 	}
 	states := make([]wstate, nw)
 	var wg sync.WaitGroup
@@ -166,6 +167,8 @@ func runParent(def *CheckDef, tier string, seed int64, scratch string, nw int) i
 		go func(k int) {
 			defer wg.Done()
 			st := &states[k]
+			killedNoBanner := 0
+			_ = killedNoBanner
 			resume := int64(-1)
 			deadline := time.Now().Add(limit)
 			for attempt := 0; attempt < 40; attempt++ {
@@ -223,7 +226,14 @@ func runParent(def *CheckDef, tier string, seed int64, scratch string, nw int) i
 						break
 					}
 				}
-				st.crashes = append(st.crashes, Violation{Property: def.ID, Case: cs, Why: "interpreter killed the process (unrecoverable host-runtime failure)", Observed: trunc(logs, 1500), Signature: sig})
+				if sig == "worker-death" {
+					// no Go panic / fatal-error banner: the worker was killed from outside
+					// (memory pressure, watchdog) — a resource matter, never a violation
+					st.notes = append(st.notes, fmt.Sprintf("worker of shard %d was killed without a Go failure banner while running case #%d (%s); skipped", k, cs.Idx, cs.Gen))
+					killedNoBanner++
+				} else {
+					st.crashes = append(st.crashes, Violation{Property: def.ID, Case: cs, Why: "interpreter killed the process (unrecoverable host-runtime failure)", Observed: trunc(logs, 1500), Signature: sig})
+				}
 				resume = cs.Idx
 			}
 			st.broken = "worker restarted too many times"
@@ -259,6 +269,7 @@ func runParent(def *CheckDef, tier string, seed int64, scratch string, nw int) i
 		violations = append(violations, st.res.Violations...)
 		violations = append(violations, st.crashes...)
 		inconclusive = append(inconclusive, st.res.Inconclusive...)
+		inconclusive = append(inconclusive, st.notes...)
 		if len(st.crashes) > 0 {
 			counters["worker_restarts"] += int64(len(st.crashes))
 		}
